@@ -373,11 +373,43 @@ func vC11Mutate(r *vs.Rand, g vC11Group) (vC11Group, []string) {
 			s.Mem = vMiB * uint64(r.Range(1, 16384))
 			s.Count = uint32(r.Range(1, 3))
 			ops = append(ops, "resources")
+		case 9, 10, 11, 12, 13, 14: // exactly one thing of one service changes
+			s := &out.Services[r.Intn(len(out.Services))]
+			switch op {
+			case 9:
+				s.Sto = vMiB * uint64(r.Range(1, 16384))
+				ops = append(ops, "only-storage")
+			case 10:
+				s.CPU = uint64(r.Range(10, 4000))
+				ops = append(ops, "only-cpu")
+			case 11:
+				s.Mem = vMiB * uint64(r.Range(1, 16384))
+				ops = append(ops, "only-memory")
+			case 12:
+				s.Count = s.Count%3 + 1
+				ops = append(ops, "only-count")
+			case 13:
+				s.Image = s.Image + "-v2"
+				ops = append(ops, "only-image")
+			case 14:
+				s.Env = append(append([]string(nil), s.Env...), "ADDED=1")
+				ops = append(ops, "only-env")
+			}
 		}
+	}
+	if r.Chance(1, 4) {
+		// a small update: one or two single-field changes, nothing else (an
+		// "is this object up to date?" shortcut must notice each of them)
+		apply(9 + r.Intn(6))
+		if r.Bool() {
+			apply(9 + r.Intn(6))
+		}
+		sort.Strings(ops)
+		return out, ops
 	}
 	apply([]int{0, 0, 1, 1, 2, 3, 4, 5}[r.Intn(8)])
 	for i, n := 0, r.Intn(3); i < n; i++ {
-		apply(r.Intn(9))
+		apply(r.Intn(15))
 	}
 	if len(ops) == 0 {
 		apply(6)
